@@ -21,7 +21,7 @@ RULE = (
     "a state is (model, config, number of steps simulated so far, checkpoint variant); transitions are integrate calls"
 )
 REQUIRED_COVER = ["non_default_delta_t", "overlap_sample", "state_reads_current", "first_part_is_1", "last_part_is_1", "all_ones", "prod_gt_steps_with_return_states", "exact_factorisation",
-                  "manual_stepper", "clamp", "synapse_model", "fwd_euler"]
+                  "manual_stepper", "clamp", "synapse_model", "synaptic_state_clamped_on_second_type", "fwd_euler"]
 ASSUMPTIONS = [
     "tolerance 1e-8 relative: programs of different scan length / checkpoint layout are fused differently and round-off (1e-16) is amplified by up to 1e6 through an action-potential upstroke at dt = 0.05; a wrong state, input slice or time step is off by >= 1e-4",
     "runs are 4-5 steps long; longer runs are not explored",
@@ -36,6 +36,10 @@ CONFIGS = {
                      "schemes": ["bwd_euler", "crank_nicolson"]},
     "net_syn": {"stim": lambda m: m.cell(0).branch(0).comp(0), "clamp": ("v", lambda m: m.cell(1).branch(1).comp(0)),
                 "schemes": ["bwd_euler", "crank_nicolson"]},
+    # the same network with the clamp on a synaptic state of the SECOND synapse type (global edge index 1, index 0 within its type):
+    # integrate and the public step function must both translate the edge index (seeded change S64)
+    "net_syn_synclamp": {"model": "net_syn", "stim": lambda m: m.cell(0).branch(0).comp(0), "clamp": ("TestSynapse_c", lambda m: m.TestSynapse.edge(0)),
+                         "schemes": ["bwd_euler"]},
     # a channel whose update reads a membrane current: the current entries of the returned state matter
     "cell_pump": {"stim": lambda m: m.branch(0).comp(0), "clamp": ("CaL_q", lambda m: m.branch(1).comp(0)),
                   "schemes": ["bwd_euler"]},
@@ -54,9 +58,11 @@ def _ckpt(k, variant):
 
 
 def _setup(model_name):
+    model_name = CONFIGS[model_name].get("model", model_name)
     m = models.MODELS[model_name]()
     m.record("v", verbose=False)
     if model_name == "net_syn":
+        m.TestSynapse.edge(0).record("TestSynapse_c", verbose=False)
         m.cell(0).branch(0).comp(0).record("HH_m", verbose=False)
         m.cell(1).branch(0).comp(0).record("i_HH", verbose=False)
         m.IonotropicSynapse.edge(0).record("IonotropicSynapse_s", verbose=False)
@@ -158,8 +164,10 @@ def run_config(model_name, scheme, backend, n, variants, comps=None, dt=0.025):
     if d > TOL:
         viol("returned_state_is_last_time_point", "none", (n,), f"one-shot returned state vs manual stepper: {d} at {key}")
     out["cover"].append("clamp")
-    if model_name == "net_syn":
+    if model_name in ("net_syn", "net_syn_synclamp"):
         out["cover"].append("synapse_model")
+    if model_name == "net_syn_synclamp":
+        out["cover"].append("synaptic_state_clamped_on_second_type")
     if model_name == "cell_pump":
         out["cover"].append("state_reads_current")
     if scheme == "fwd_euler":
